@@ -7,9 +7,12 @@ CONSTANTS
   MaxConv = 3
   LifoRestore = TRUE
   MaxBuilds = 2
+  Inherit <- MCInherit
+  SaveResolved = FALSE
 SPECIFICATION Spec
 VIEW view
 INVARIANT Quiescent
+INVARIANT ResolvesAsBefore
 INVARIANT NoLeakOutsideWorlds
 INVARIANT ActiveInBody
 INVARIANT RefCounts
